@@ -33,8 +33,9 @@ fn mov_hook(ax: &mut Axecutor, _m: SM) -> Result<HookResult, Box<dyn std::error:
 
 struct Inputs {
     prog: proggen::Prog,
-    /// which of the 16 GPRs are written explicitly (RSP, RBX, R13 always)
-    written: [bool; 16],
+    /// which bytes of the 16 GPRs are written explicitly (RSP, RBX, R13 always completely): 0xff = reg_write_64,
+    /// 0x01 = only the low byte through reg_write_8, 0x03 = only the low word through reg_write_16, 0 = nothing
+    written: [u8; 16],
     /// which XMM registers are written explicitly
     written_xmm: [bool; 16],
     with_hooks: bool,
@@ -45,13 +46,13 @@ fn gen_inputs(rng: &mut Rng) -> Inputs {
     let with_syscalls = rng.below(2) == 0;
     let opts = ProgOpts { reserved: vec![13], syscalls: with_syscalls, fault_tail: rng.below(3) == 0, unbalanced_ret: rng.below(4) == 0, ..Default::default() };
     let prog = proggen::gen_prog(rng, &opts);
-    let mut written = [true; 16];
+    let mut written = [0xffu8; 16];
     for _ in 0..*rng.pick(&[0u64, 1, 1, 2, 2, 3, 5, 8]) {
-        written[rng.below(16) as usize] = false;
+        written[rng.below(16) as usize] = *rng.pick(&[0u8, 0, 0x01, 0x03]);
     }
-    written[3] = true;
-    written[4] = true;
-    written[13] = true;
+    written[3] = 0xff;
+    written[4] = 0xff;
+    written[13] = 0xff;
     let mut written_xmm = [true; 16];
     for _ in 0..*rng.pick(&[0u64, 1, 2, 3, 6, 16]) {
         written_xmm[rng.below(16) as usize] = false;
@@ -65,8 +66,14 @@ fn build(inp: &Inputs) -> Option<Axecutor> {
     let data: Vec<u8> = (0..proggen::DATA_LEN).map(|i| (mix64(i) & 0xff) as u8).collect();
     catch(|| ax.mem_init_area(proggen::DATA_AT, data)).ok()?.ok()?;
     for (i, r) in proggen::GPR.iter().enumerate() {
-        if inp.written[i] && i != 4 {
-            catch(|| ax.reg_write_64(*r, p.init_gpr[i])).ok()?.ok()?;
+        if i == 4 {
+            continue;
+        }
+        match inp.written[i] {
+            0xff => catch(|| ax.reg_write_64(*r, p.init_gpr[i])).ok()?.ok()?,
+            0x01 => catch(|| ax.reg_write_8(crate::hw::sr(low8(i)), p.init_gpr[i] & 0xff)).ok()?.ok()?,
+            0x03 => catch(|| ax.reg_write_16(crate::hw::sr(Register::AX + i as u32), p.init_gpr[i] & 0xffff)).ok()?.ok()?,
+            _ => {}
         }
     }
     for (i, x) in XMM.iter().enumerate() {
@@ -85,14 +92,39 @@ fn build(inp: &Inputs) -> Option<Axecutor> {
     Some(ax)
 }
 
+fn low8(i: usize) -> Register {
+    match i {
+        0..=3 => Register::AL + i as u32,
+        4..=7 => Register::SPL + (i as u32 - 4),
+        _ => Register::R8L + (i as u32 - 8),
+    }
+}
+
+/// the bytes of the 64-bit register a (sub)register covers
+fn byte_mask(r: Register) -> u8 {
+    match r.size() {
+        1 => {
+            if matches!(r, Register::AH | Register::CH | Register::DH | Register::BH) {
+                0x02
+            } else {
+                0x01
+            }
+        }
+        2 => 0x03,
+        4 => 0x0f,
+        _ => 0xff,
+    }
+}
+
 fn gpr_index(r: Register) -> Option<usize> {
     let f = r.full_register();
     crate::hw::GPR64.iter().position(|g| *g == f)
 }
 
 /// Runs the machine; truncates at the first instruction that reads a register nothing has defined.
-/// Returns (result text, defined GPR mask, defined XMM mask, steps).
-fn run(ax: &mut Axecutor, inp: &Inputs) -> (String, [bool; 16], [bool; 16], u64) {
+/// Definedness is tracked per byte of every GPR: `mov al,7` defines one byte, a 32-bit write defines all eight.
+/// Returns (result text, defined GPR byte masks, defined XMM mask, steps).
+fn run(ax: &mut Axecutor, inp: &Inputs) -> (String, [u8; 16], [bool; 16], u64) {
     let mut def = inp.written;
     let mut xdef = inp.written_xmm;
     let mut fac = InstructionInfoFactory::new();
@@ -112,9 +144,10 @@ fn run(ax: &mut Axecutor, inp: &Inputs) -> (String, [bool; 16], [bool; 16], u64)
             let acc = u.access();
             let is_read = !matches!(acc, OpAccess::Write | OpAccess::NoMemAccess | OpAccess::None);
             let is_write = matches!(acc, OpAccess::Write | OpAccess::ReadWrite | OpAccess::CondWrite | OpAccess::ReadCondWrite);
-            let partial = r.is_gpr8() || r.is_gpr16();
             if let Some(i) = gpr_index(r) {
-                if (is_read || (is_write && (partial || matches!(acc, OpAccess::CondWrite | OpAccess::ReadCondWrite)))) && !def[i] {
+                let m = byte_mask(r);
+                // a conditional write keeps the old bytes when the condition is false
+                if (is_read || (is_write && matches!(acc, OpAccess::CondWrite | OpAccess::ReadCondWrite))) && def[i] & m != m {
                     reads_undefined = true;
                 }
                 if is_write {
@@ -131,7 +164,7 @@ fn run(ax: &mut Axecutor, inp: &Inputs) -> (String, [bool; 16], [bool; 16], u64)
             }
         }
         // hooks and syscall handlers read registers the instruction does not name: they are part of the inputs
-        if ins.mnemonic() == iced_x86::Mnemonic::Syscall && !(def[0] && def[7] && def[6] && def[2]) {
+        if ins.mnemonic() == iced_x86::Mnemonic::Syscall && !(def[0] == 0xff && def[7] == 0xff && def[6] == 0xff && def[2] == 0xff) {
             reads_undefined = true;
         }
         if reads_undefined {
@@ -151,7 +184,8 @@ fn run(ax: &mut Axecutor, inp: &Inputs) -> (String, [bool; 16], [bool; 16], u64)
         }
         for (r, _) in writes {
             if let Some(i) = gpr_index(r) {
-                def[i] = true;
+                // 32-bit writes zero-extend: all eight bytes become defined
+                def[i] |= if r.size() == 4 { 0xff } else { byte_mask(r) };
             } else if r.is_xmm() {
                 xdef[r.number() as usize] = true;
             }
@@ -178,12 +212,18 @@ fn run(ax: &mut Axecutor, inp: &Inputs) -> (String, [bool; 16], [bool; 16], u64)
 }
 
 /// everything that must be a function of the explicit inputs
-fn observable(ax: &mut Axecutor, result: &str, def: &[bool; 16], xdef: &[bool; 16]) -> Vec<(String, String)> {
+fn observable(ax: &mut Axecutor, result: &str, def: &[u8; 16], xdef: &[bool; 16]) -> Vec<(String, String)> {
     let mut v: Vec<(String, String)> = Vec::new();
     v.push(("result".into(), result.to_string()));
     for (i, r) in proggen::GPR.iter().enumerate() {
-        if def[i] {
-            v.push((format!("{:?}", r), format!("{:#x}", ax.reg_read_64(*r).unwrap_or(0))));
+        if def[i] != 0 {
+            let mut bytes = 0u64;
+            for b in 0..8 {
+                if def[i] & (1 << b) != 0 {
+                    bytes |= 0xff << (8 * b);
+                }
+            }
+            v.push((format!("{:?}&{:#x}", r, bytes), format!("{:#x}", ax.reg_read_64(*r).unwrap_or(0) & bytes)));
         }
     }
     for (i, x) in XMM.iter().enumerate() {
@@ -265,7 +305,7 @@ impl C20 {
 
 impl Monitor for C20 {
     fn total_cases(&self) -> u64 {
-        REPLICAS * self.tier.pick(15_000, 400_000)
+        REPLICAS * self.tier.pick(50_000, 1_000_000)
     }
 
     fn run_case(&mut self, k: u64, _rng: &mut Rng, col: &mut Collector) {
@@ -286,13 +326,13 @@ impl Monitor for C20 {
         col.eval(2);
         let oa = observable(&mut a, &ra, &da, &xa);
         let ob = observable(&mut b, &rb, &db, &xb);
-        let undefined_start = inp.written.iter().filter(|w| !**w).count();
+        let undefined_start = inp.written.iter().filter(|w| **w != 0xff).count();
         col.distinct_key(&format!("{}|{}|{}|{}", ra.split(':').next().unwrap_or("").chars().take(20).collect::<String>(), inp.with_hooks, inp.with_syscalls, undefined_start.min(8)));
         col.count(&format!("runs_{}", ra.split(':').next().unwrap_or("?").split(' ').next().unwrap_or("?")), 1);
         col.count("steps", sa);
         if oa != ob {
             let diff = oa.iter().zip(ob.iter()).find(|(x, y)| x != y).map(|(x, y)| format!("{}: {} vs {}", x.0, x.1.chars().take(200).collect::<String>(), y.1.chars().take(200).collect::<String>())).unwrap_or_else(|| "different number of observables".into());
-            col.violation_case(&format!("determinism:two-machines-one-process:{}", diff.split(':').next().unwrap_or("")), k, format!("two independently constructed machines with the same explicit inputs differ in {} (program shape {}, registers written explicitly: {:?})", diff, inp.prog.shape, inp.written.iter().enumerate().filter(|(_, w)| **w).map(|(i, _)| i).collect::<Vec<_>>()), json!({"program_hex": hex(&inp.prog.code), "difference": diff, "written_gprs": inp.written.to_vec()}));
+            col.violation_case(&format!("determinism:two-machines-one-process:{}", diff.split(':').next().unwrap_or("")), k, format!("two independently constructed machines with the same explicit inputs differ in {} (program shape {}, registers written explicitly: {:?})", diff, inp.prog.shape, inp.written.iter().enumerate().filter(|(_, w)| **w != 0).map(|(i, w)| format!("{}:{:#04x}", i, w)).collect::<Vec<_>>()), json!({"program_hex": hex(&inp.prog.code), "difference": diff, "written_gprs": inp.written.to_vec()}));
             return;
         }
         // cross-process: the digest of everything observable is compared by the supervisor
@@ -302,7 +342,7 @@ impl Monitor for C20 {
         }
         col.set_insert("digests", &format!("{}:{:016x}", pid, h));
         if k % REPLICAS == 0 && col.want_sample() {
-            col.push_sample(json!({"program_hex": hex(&inp.prog.code), "shape": inp.prog.shape, "written_gprs": inp.written.iter().enumerate().filter(|(_, w)| **w).map(|(i, _)| i).collect::<Vec<_>>(), "result": ra.chars().take(120).collect::<String>(), "steps": sa, "digest": format!("{:016x}", h)}));
+            col.push_sample(json!({"program_hex": hex(&inp.prog.code), "shape": inp.prog.shape, "written_gpr_bytes": inp.written.to_vec(), "result": ra.chars().take(120).collect::<String>(), "steps": sa, "digest": format!("{:016x}", h)}));
         }
     }
 }
